@@ -42,7 +42,13 @@ func doLoad(w *seqx.World, lc loadCase, mh cid.Cid, heads []iface.IPFSLogEntry, 
 	}
 	switch lc.Loader {
 	case "multihash":
-		return ipfslog.NewFromMultihash(world.Ctx, w.St, world.IDs[0], mh, lo, &ipfslog.FetchOptions{Length: lp, Concurrency: lc.Conc, SortFn: w.Cfg.SortFnOrNil()})
+		fo := &ipfslog.FetchOptions{Length: lp, Concurrency: lc.Conc, SortFn: w.Cfg.SortFnOrNil()}
+		if lc.N < 0 && lc.Conc == 1 {
+			// the ordering of the rebuilt log is what the log options say; the fetch options' ordering only matters
+			// for choosing the entries of a limited load. A caller that configures it in one place only is served too.
+			fo.SortFn = nil
+		}
+		return ipfslog.NewFromMultihash(world.Ctx, w.St, world.IDs[0], mh, lo, fo)
 	case "entryhash":
 		return ipfslog.NewFromEntryHash(world.Ctx, w.St, world.IDs[0], hashes[0], lo, &ipfslog.FetchOptions{Length: lp, Concurrency: lc.Conc})
 	case "json":
